@@ -76,10 +76,11 @@ theorem dSet_mapVal {κ ν μ : Type} [DecidableEq κ] (f : ν → μ) (d : List
 
 /-! ### 3. the loops of `make_stats` -/
 
-/-- what the loop over `output_assemblies.items()` does to `(output_set, output_junction_sets)` in one pass -/
-def outStep (s : List Junction × List (Option Str × List Junction)) (x : Option Str × Assembly) :
-    R (List Junction × List (Option Str × List Junction)) :=
-  x.2.junctionSet >>= fun js => .ok (sUnion s.1 js, dSet s.2 x.1 js)
+/-- what the loop over `output_assemblies.items()` does to its state in one pass.  The translator carries the loop variables sorted by
+    name: `(output_junction_sets, output_set)` -/
+def outStep (s : List (Option Str × List Junction) × List Junction) (x : Option Str × Assembly) :
+    R (List (Option Str × List Junction) × List Junction) :=
+  x.2.junctionSet >>= fun js => .ok (dSet s.1 x.1 js, sUnion s.2 js)
 
 /-- the source's view of the output assemblies: `(key, Assembly object)` pairs -/
 abbrev outItems (outs : List OutAsm) : List (Option Str × Assembly) :=
@@ -96,9 +97,9 @@ theorem outSetsOf_cons (a : OutAsm) (outs : List OutAsm) :
 /-- the loop over the output assemblies = the model's `mapM` (`C11.outSetsOf`), then the union of the sets and the dictionary built
     by storing them one by one (Python: `output_set |= junc_set; output_junction_sets[name] = junc_set`) -/
 theorem outLoop_eq (outs : List OutAsm) (os : List Junction) (d : List (Option Str × List Junction)) :
-    (outItems outs).foldlM outStep (os, d) =
+    (outItems outs).foldlM outStep (d, os) =
       (C11.outSetsOf outs >>= fun outSets =>
-        .ok (outSets.foldl (fun acc p => sUnion acc p.2) os, outSets.foldl (fun d p => dSet d p.1 p.2) d)) := by
+        .ok (outSets.foldl (fun d p => dSet d p.1 p.2) d, outSets.foldl (fun acc p => sUnion acc p.2) os)) := by
   induction outs generalizing os d with
   | nil => rfl
   | cons a outs ih =>
